@@ -4,6 +4,7 @@ mod ast;
 mod frags;
 mod sat;
 mod desc;
+mod psbt;
 mod tables;
 mod tap;
 
@@ -21,6 +22,7 @@ fn main() {
         "frags" => frags::run(&args[2..]),
         "tap" => tap::run(&args[2..]),
         "desc" => desc::run(&args[2..]),
+        "psbt" => psbt::run(&args[2..]),
         other => {
             eprintln!("unknown engine {}", other);
             std::process::exit(2);
